@@ -8,46 +8,46 @@ Local Open Scope Z_scope.
 
 (** ** Specification *)
 
-(** "an authenticator produced a subject": the first authenticator of the list
-    succeeded, or it failed in a way that permits falling back to the next one
-    (a missing-credentials / argument error anywhere in its error value, or its
-    fallback-on-error flag — the rule of C04) and one of the following produced
-    a subject in the same way *)
-Definition may_fall_back (a : authn) (e : err) : Prop :=
-  occurs (TKind KArgument) e = true \/ a_fallback a = true.
-
-Inductive authenticated : list authn -> Prop :=
-| auth_here a rest : a_out a = Ok -> authenticated (a :: rest)
-| auth_next a rest e :
-    a_out a = Fail e -> may_fall_back a e -> authenticated rest -> authenticated (a :: rest).
+(** "an authenticator produced a subject": some authenticator returned a subject
+    and every authenticator in front of it returned an error (none of them
+    panicked, none of them produced a subject before).  Whether falling back from
+    a failed authenticator to the next one was legitimate is property C04's
+    question, not this one's. *)
+Definition subject_produced (l : list authn) : Prop :=
+  exists l1 a l2, l = l1 ++ a :: l2 /\ a_out a = Ok /\ Forall (fun b => exists e, a_out b = Fail e) l1.
 
 (** no `if`, or it evaluated to true *)
 Definition cond_true (c : option cond) : Prop := c = None \/ c = Some (CVal true).
 
 (** the `if` condition evaluated to false.  cellib represents "the expression's
     value is not true" by an [EvalError]; a program error that is (or wraps) an
-    EvalError is that same answer *)
+    EvalError is that same answer (an implementation detail of cellib; no CEL
+    program produces such an error, the correspondence streams never generate it) *)
 Definition cond_false (c : option cond) : Prop :=
   c = Some (CVal false) \/ exists e, c = Some (CErr e) /\ occurs TEval e = true.
 
 (** "every authorizer, contextualizer and finalizer not marked continue-on-error
     either was skipped because its `if` condition evaluated to false or ran and
-    returned without error" *)
+    returned without error".  Steps marked continue-on-error are exempt as a whole:
+    the statement's first sentence exempts them, and the code swallows both their
+    errors and the evaluation errors of their conditions (witness
+    [continue_step_condition_error_is_swallowed] below). *)
 Definition step_passed (s : step) : Prop :=
   s_continue s = true \/ cond_false (s_if s) \/ (cond_true (s_if s) /\ s_out s = Ok).
 
-Definition pipeline_succeeded (r : rule) : Prop :=
-  authenticated (sc r) /\ Forall step_passed (sh r) /\ Forall step_passed (fi r).
+Definition pipeline_completed (r : rule) : Prop :=
+  subject_produced (sc r) /\ Forall step_passed (sh r) /\ Forall step_passed (fi r).
 
 (** "a rule or the default rule applied to it" *)
 Definition applied (l : lookup) (r : rule) : Prop := l = Matched r \/ l = Default r.
 
 (** a positive answer: the accepted status of the decision service, forwarding
-    to the upstream in proxy mode, an OK check response for Envoy *)
+    to the upstream in proxy mode (whatever the upstream answers), an OK check
+    response for Envoy *)
 Definition positive (en : entry) (c : config) (a : answer) : Prop :=
   match en, a with
   | Decision, AHttp s _ => s = accepted_code c
-  | Proxy, AHttp _ hits => (0 < hits)%nat
+  | Proxy, _ => (0 < hits_of a)%nat
   | Envoy, AEnvoyOk => True
   | _, _ => False
   end.
@@ -58,24 +58,42 @@ Definition positive (en : entry) (c : config) (a : answer) : Prop :=
 Definition non_success (a : answer) : Prop :=
   match a with
   | AHttp s hits => success_like s = false /\ hits = 0%nat
-  | AAbort => True
+  | AAbort hits => hits = 0%nat
   | AEnvoyOk => False
   | AEnvoyDenied g s => g <> GOk /\ success_like s = false
   | AEnvoyStatus g => g <> GOk
   end.
 
-(** *** Hypotheses of the theorems (all on the configuration, none on the outcome vector) *)
+(** the positive answer in full *)
+Definition positive_shape (en : entry) (c : config) (a : answer) : Prop :=
+  match en with
+  | Decision => a = AHttp (accepted_code c) 0       (* accepted status, the upstream is never contacted *)
+  | Proxy => hits_of a = 1%nat                      (* exactly one forwarded request, its outcome relayed *)
+  | Envoy => a = AEnvoyOk
+  end.
 
-(** no error value of the rule carries a redirect to a 1xx/2xx code, no redirect
-    error handler is configured with one (see C12: `code: 200` is accepted
-    configuration of the redirect handler) *)
+(** *** Hypotheses of the theorems
+
+    On the configuration: no status override is a 1xx/2xx code; the accepted
+    status is one (decision service only: to tell its positive answer from an
+    error response); the rule has an authenticator (rule factory, C14).
+    On the error VALUES that mechanisms, conditions and panics produce: none of
+    them carries a RedirectError with a 1xx/2xx code ([redirects_ok]; heimdall's
+    own redirect handler cannot be configured with such a code any more, see
+    [loader_redirect_never_success]).
+    On error handlers: each of them records a pipeline error before it reports
+    "handled" ([handlers_record]: a semantic condition on arbitrary handlers, shown
+    to hold for heimdall's three mechanisms). *)
 Definition good_err (e : err) : Prop := redirects_not_success e.
-Definition good_panic (v : option err) : Prop := match v with Some e => good_err e | None => True end.
+Definition good_opt (o : option err) : Prop := match o with Some e => good_err e | None => True end.
+Definition good_panic (v : option err) : Prop := good_opt v.
 Definition good_outcome (o : outcome) : Prop :=
   match o with Ok => True | Fail e => good_err e | Panics v => good_panic v end.
 Definition good_cond (c : option cond) : Prop :=
   match c with Some (CErr e) => good_err e | Some (CPanics v) => good_panic v | _ => True end.
 Definition good_step (s : step) : Prop := good_cond (s_if s) /\ good_outcome (s_out s).
+Definition good_eh_res (x : eh_res) : Prop :=
+  match x with EhRet ret p => good_opt ret /\ good_opt p | EhPanic v => good_panic v end.
 Definition good_eh (h : ehstep) : Prop :=
   good_cond (e_if h) /\
   match e_kind h with
@@ -84,24 +102,66 @@ Definition good_eh (h : ehstep) : Prop :=
   | EhFails e => good_err e
   | EhPanics v => good_panic v
   | EhSilent => True
+  | EhAny f => forall cause, good_err cause -> good_eh_res (f cause)
   end.
 
 Definition redirects_ok (r : rule) : Prop :=
   Forall (fun a => good_outcome (a_out a)) (sc r) /\ Forall good_step (sh r) /\
   Forall good_step (fi r) /\ Forall good_eh (eh r).
 
-(** every error handler is one heimdall has (default / redirect / www_authenticate),
-    or fails, or panics *)
-Definition real_handlers (r : rule) : Prop := Forall (fun h => e_kind h <> EhSilent) (eh r).
+(** "every error handler records a pipeline error before reporting success":
+    whenever the handler returns nil it has recorded an error.  [result] is the
+    handler's behaviour as a function of the cause; nothing else is assumed of it. *)
+Definition records (result : err -> eh_res) : Prop :=
+  forall cause ret p, result cause = EhRet ret p -> ret = None -> p <> None.
+
+(** ... spelled out per kind of handler, without reference to the model's
+    functions: heimdall's mechanisms and handlers that fail or panic do; the
+    hypothetical silent handler does not; an arbitrary handler may or may not *)
+Definition handler_records (h : ehstep) : Prop :=
+  match e_kind h with
+  | EhReal _ | EhFails _ | EhPanics _ => True
+  | EhSilent => False
+  | EhAny f => records f
+  end.
+
+Definition handlers_record (r : rule) : Prop := Forall handler_records (eh r).
 
 (** what the rule factory guarantees of every loaded rule and of the default
     rule (theorem C14_accepted_only_if_wellformed): at least one authenticator *)
-Definition loaded (r : rule) : Prop := sc r <> [] /\ real_handlers r.
-
 Definition sane (c : config) (r : rule) : Prop :=
-  overrides_not_success (c_respond c) /\ redirects_ok r /\ loaded r.
+  overrides_not_success (c_respond c) /\ redirects_ok r /\ sc r <> [] /\ handlers_record r.
+
+(** ** The stronger reading used for the converse: the authenticator that produced
+    the subject was reached by legitimate fallbacks (C04's rule) *)
+Definition may_fall_back (a : authn) (e : err) : Prop :=
+  occurs (TKind KArgument) e = true \/ a_fallback a = true.
+
+Inductive authenticated : list authn -> Prop :=
+| auth_here a rest : a_out a = Ok -> authenticated (a :: rest)
+| auth_next a rest e :
+    a_out a = Fail e -> may_fall_back a e -> authenticated rest -> authenticated (a :: rest).
+
+Definition pipeline_succeeded (r : rule) : Prop :=
+  authenticated (sc r) /\ Forall step_passed (sh r) /\ Forall step_passed (fi r).
+
+Lemma authenticated_subject_produced l : authenticated l -> subject_produced l.
+Proof.
+  induction 1 as [a rest E|a rest e E F _ (l1 & b & l2 & E1 & E2 & E3)].
+  - exists [], a, rest. repeat split; auto.
+  - exists (a :: l1), b, l2. subst. repeat split; auto. constructor; eauto.
+Qed.
+
+Lemma succeeded_completed r : pipeline_succeeded r -> pipeline_completed r.
+Proof. intros (A & B & C). split; [apply authenticated_subject_produced; exact A | auto]. Qed.
 
 (** ** Executable versions (used by the evaluator), with their specifications *)
+
+Fixpoint subject_produced_b (l : list authn) : bool :=
+  match l with
+  | [] => false
+  | a :: rest => match a_out a with Ok => true | Fail _ => subject_produced_b rest | Panics _ => false end
+  end.
 
 Fixpoint authenticated_b (l : list authn) : bool :=
   match l with
@@ -121,8 +181,27 @@ Definition cond_false_b (c : option cond) : bool :=
 Definition out_ok_b (o : outcome) : bool := match o with Ok => true | _ => false end.
 Definition step_passed_b (s : step) : bool :=
   s_continue s || cond_false_b (s_if s) || (cond_true_b (s_if s) && out_ok_b (s_out s)).
+Definition completed_b (r : rule) : bool :=
+  subject_produced_b (sc r) && forallb step_passed_b (sh r) && forallb step_passed_b (fi r).
 Definition succeeded_b (r : rule) : bool :=
   authenticated_b (sc r) && forallb step_passed_b (sh r) && forallb step_passed_b (fi r).
+
+Lemma subject_produced_b_spec l : subject_produced_b l = true <-> subject_produced l.
+Proof.
+  induction l as [|a rest IH]; simpl.
+  - split; [discriminate|]. intros (l1 & b & l2 & E & _). destruct l1; discriminate.
+  - destruct (a_out a) as [|e|v] eqn:E.
+    + split; [|reflexivity]. intros _. exists [], a, rest. repeat split; auto.
+    + rewrite IH. split.
+      * intros (l1 & b & l2 & E1 & E2 & E3). exists (a :: l1), b, l2. subst. repeat split; auto.
+        constructor; eauto.
+      * intros (l1 & b & l2 & E1 & E2 & E3). destruct l1 as [|x l1]; simpl in E1; inversion E1; subst.
+        { congruence. }
+        inversion E3; subst. exists l1, b, l2. auto.
+    + split; [discriminate|]. intros (l1 & b & l2 & E1 & E2 & E3).
+      destruct l1 as [|x l1]; simpl in E1; inversion E1; subst; [congruence|].
+      inversion E3 as [|? ? [e' He] _]; subst. congruence.
+Qed.
 
 Lemma authenticated_b_spec l : authenticated_b l = true <-> authenticated l.
 Proof.
@@ -160,13 +239,21 @@ Proof.
   rewrite O. tauto.
 Qed.
 
+Lemma forallb_steps l : forallb step_passed_b l = true <-> Forall step_passed l.
+Proof.
+  rewrite forallb_forall, Forall_forall. split; intros H s Hs; apply step_passed_b_spec; auto.
+Qed.
+
+Lemma completed_b_spec r : completed_b r = true <-> pipeline_completed r.
+Proof.
+  unfold completed_b, pipeline_completed.
+  rewrite !andb_true_iff, subject_produced_b_spec, !forallb_steps. tauto.
+Qed.
+
 Lemma succeeded_b_spec r : succeeded_b r = true <-> pipeline_succeeded r.
 Proof.
   unfold succeeded_b, pipeline_succeeded.
-  rewrite !andb_true_iff, authenticated_b_spec, !forallb_forall, !Forall_forall.
-  split.
-  - intros [[A B] C]. split; [exact A|]. split; intros s Hs; apply step_passed_b_spec; auto.
-  - intros (A & B & C). split; [split; [exact A|]|]; intros s Hs; apply step_passed_b_spec; auto.
+  rewrite !andb_true_iff, authenticated_b_spec, !forallb_steps. tauto.
 Qed.
 
 (** ** Proofs *)
@@ -174,7 +261,7 @@ Qed.
 Lemma is_arg_occurs e : is_ (TKind KArgument) e = occurs (TKind KArgument) e.
 Proof. apply is_occurs. Qed.
 
-(** *** authenticators: the loop computes [authenticated] *)
+(** *** authenticators *)
 Lemma run_sc_ok l : forall last, run_sc l last = StOk -> (l = [] /\ last = None) \/ authenticated l.
 Proof.
   induction l as [|a rest IH]; intros last; simpl.
@@ -247,8 +334,28 @@ Qed.
 Lemma mech_exec_records m cause : hd_ret (mech_exec m cause) = None -> hd_pipeline (mech_exec m cause) <> None.
 Proof. destruct m as [|code [url|]|realm]; simpl; intro H; discriminate. Qed.
 
+(** the per-kind reading [handler_records] is the semantic one *)
+Lemma handler_records_sem h : handler_records h <-> records (h_sem (e_kind h)).
+Proof.
+  unfold handler_records, records. destruct (e_kind h) as [m|e|v| |f]; simpl.
+  - split; [|auto]. intros _ cause ret p E N. injection E as E1 E2. subst ret. rewrite <- E2.
+    apply mech_exec_records. exact N.
+  - split; [|auto]. intros _ cause ret p E ->. discriminate.
+  - split; [|auto]. intros _ cause ret p E. discriminate.
+  - split; [contradiction|]. intro H. apply (H (Sentinel KInternal) None None); reflexivity.
+  - tauto.
+Qed.
+
+Lemma eh_exec_records h cause ret p :
+  handler_records h -> eh_exec h cause = EhRet ret p -> ret = None -> p <> None.
+Proof.
+  intros R. apply handler_records_sem in R. unfold eh_exec.
+  destruct (can_execute (e_if h)); try (intros E; inversion E; discriminate).
+  apply R.
+Qed.
+
 Lemma run_eh_records l cause ret p :
-  Forall (fun h => e_kind h <> EhSilent) l -> run_eh l cause = EhRet ret p -> ret = None -> p <> None.
+  Forall handler_records l -> run_eh l cause = EhRet ret p -> ret = None -> p <> None.
 Proof.
   induction l as [|h rest IH]; simpl; intros R.
   - intros H; inversion H; subst. discriminate.
@@ -256,10 +363,7 @@ Proof.
     destruct (eh_exec h cause) as [[e|] p'|v] eqn:E.
     + destruct (is_ (TKind (KOther 99)) e); [apply IH; exact R2|].
       intros H; inversion H; subst. discriminate.
-    + intros H _; inversion H; subst.
-      unfold eh_exec in E. destruct (can_execute (e_if h)); try discriminate.
-      destruct (e_kind h) as [m|e|v|] eqn:K; try discriminate; [|congruence].
-      injection E as E1 E2. rewrite <- E2. apply mech_exec_records. exact E1.
+    + intros H N; inversion H; subst. eapply eh_exec_records; eauto.
     + discriminate.
 Qed.
 
@@ -278,7 +382,7 @@ Proof.
 Qed.
 
 Lemma run_sc_good l : forall last,
-  Forall (fun a => good_outcome (a_out a)) l -> match last with Some e => good_err e | None => True end ->
+  Forall (fun a => good_outcome (a_out a)) l -> good_opt last ->
   match run_sc l last with StOk => True | StFail e => good_err e | StPanic v => good_panic v end.
 Proof.
   induction l as [|a rest IH]; intros last G L; simpl.
@@ -301,8 +405,6 @@ Proof.
   destruct (s_continue s); auto.
 Qed.
 
-Definition good_opt (o : option err) : Prop := match o with Some e => good_err e | None => True end.
-
 Lemma mech_exec_good m cause :
   good_err cause -> match m with MRedirect code _ => success_like (redirect_status code) = false | _ => True end ->
   good_opt (hd_ret (mech_exec m cause)) /\ good_opt (hd_pipeline (mech_exec m cause)).
@@ -313,18 +415,16 @@ Proof.
   - apply redirects_not_success_leaf. exact I.
 Qed.
 
-Lemma eh_exec_good h cause : good_eh h -> good_err cause ->
-  match eh_exec h cause with EhRet ret p => good_opt ret /\ good_opt p | EhPanic v => good_panic v end.
+Lemma eh_exec_good h cause : good_eh h -> good_err cause -> good_eh_res (eh_exec h cause).
 Proof.
   intros [G1 G2] Gc. unfold eh_exec. pose proof (can_execute_good _ G1) as C.
   destruct (can_execute (e_if h)); simpl; auto.
-  - destruct (e_kind h) as [m|e|v|]; simpl; auto.
+  - destruct (e_kind h) as [m|e|v| |f]; simpl; auto.
     apply mech_exec_good; [exact Gc|]. destruct m; auto.
   - split; [apply good_not_applicable | exact I].
 Qed.
 
-Lemma run_eh_good l cause : Forall good_eh l -> good_err cause ->
-  match run_eh l cause with EhRet ret p => good_opt ret /\ good_opt p | EhPanic v => good_panic v end.
+Lemma run_eh_good l cause : Forall good_eh l -> good_err cause -> good_eh_res (run_eh l cause).
 Proof.
   induction 1 as [|h rest G _ IH]; intro Gc; simpl; [split; [exact Gc | exact I]|].
   pose proof (eh_exec_good h cause G Gc) as E.
@@ -353,7 +453,7 @@ Lemma run_rule_good en r q : redirects_ok r -> good_res (run_rule en r q).
 Proof.
   intros (G1 & G2 & G3 & G4). unfold run_rule.
   destruct (slash_rejected en r q); [split; [apply good_encoded_slash_error | exact I]|].
-  apply after_failure_good; [exact G4 | apply run_sc_good; auto |].
+  apply after_failure_good; [exact G4 | apply run_sc_good; [auto | exact I] |].
   apply after_failure_good; [exact G4 | apply run_steps_good; auto |].
   apply after_failure_good; [exact G4 | apply run_steps_good; auto | exact I].
 Qed.
@@ -376,7 +476,6 @@ Proof. intros z Hz. unfold no_rule_error, redirect_codes in Hz. simpl in Hz. con
 Lemma good_no_upstream_error : good_err no_upstream_error.
 Proof. intros z Hz. unfold no_upstream_error, redirect_codes in Hz. simpl in Hz. contradiction. Qed.
 
-(** the rule's result, read as "did every stage complete" *)
 Lemma after_failure_ROk r st k : after_failure r st k = ROk -> st = StOk /\ k = ROk.
 Proof.
   destruct st as [|e|v]; simpl; [auto| |discriminate]. destruct (run_eh (eh r) e); discriminate.
@@ -397,9 +496,8 @@ Proof.
   destruct (run_sc_ok _ _ H1) as [[E _]|A]; [contradiction | exact A].
 Qed.
 
-(** the error pipeline never returns "handled" without a recorded pipeline error *)
 Lemma after_failure_vetoes r st k :
-  real_handlers r -> (forall ret p, k = RErr ret p -> ret = None -> p <> None) ->
+  handlers_record r -> (forall ret p, k = RErr ret p -> ret = None -> p <> None) ->
   forall ret p, after_failure r st k = RErr ret p -> ret = None -> p <> None.
 Proof.
   intros R K ret p. destruct st as [|e|v]; simpl; [apply K| |discriminate].
@@ -408,7 +506,7 @@ Proof.
 Qed.
 
 Lemma run_rule_vetoes en r q ret p :
-  real_handlers r -> run_rule en r q = RErr ret p -> ret = None -> p <> None.
+  handlers_record r -> run_rule en r q = RErr ret p -> ret = None -> p <> None.
 Proof.
   intro R. unfold run_rule. destruct (slash_rejected en r q); [intros H; inversion H; discriminate|].
   apply after_failure_vetoes; [exact R|]. apply after_failure_vetoes; [exact R|].
@@ -432,42 +530,59 @@ Qed.
 
 (** a positive answer and a non-success response exclude each other *)
 Lemma non_success_not_positive en c a :
-  success_like (accepted_code c) = true -> non_success a -> ~ positive en c a.
+  (en = Decision -> success_like (accepted_code c) = true) -> non_success a -> ~ positive en c a.
 Proof.
-  intros HA N P. destruct en, a; simpl in *; try contradiction.
-  - destruct N as [N _]. subst. congruence.
-  - destruct N as [_ N]. subst. inversion P.
+  intros HA N P. destruct en, a; simpl in *; try contradiction; try lia.
+  destruct N as [N _]. subst. rewrite (HA eq_refl) in N. discriminate.
 Qed.
 
-Lemma positive_answer_cases en c up :
-  overrides_not_success (c_respond c) ->
-  positive_answer en c up = match en with
-                            | Decision => AHttp (accepted_code c) 0
-                            | Proxy => AHttp upstream_status 1
-                            | Envoy => AEnvoyOk
-                            end \/
-  non_success (positive_answer en c up).
+Lemma positive_shape_positive en c a : positive_shape en c a -> positive en c a.
 Proof.
-  intro HO. destruct en; unfold positive_answer; auto.
+  destruct en; simpl.
+  - intros ->. reflexivity.
+  - intros ->. lia.
+  - intros ->. exact I.
+Qed.
+
+Lemma hits_with_hits n a : match a with AHttp _ _ | AAbort _ => hits_of (with_hits n a) = n | _ => True end.
+Proof. destruct a; simpl; auto. Qed.
+
+Lemma fail_answer_http_shape en c sc : en <> Envoy ->
+  match fail_answer en c sc with AHttp _ _ | AAbort _ => True | _ => False end.
+Proof.
+  intro N. unfold fail_answer, of_hfinal. destruct en; [| |contradiction];
+    destruct (http_respond (c_respond c) o0 sc); exact I.
+Qed.
+
+Lemma positive_answer_cases en c b up :
+  overrides_not_success (c_respond c) ->
+  positive_shape en c (positive_answer en c b up) \/ non_success (positive_answer en c b up).
+Proof.
+  intro HO. destruct en; unfold positive_answer, positive_shape; auto.
   - destruct (valid_code (accepted_code c)); [auto|].
     right. apply fail_answer_non_success; [exact HO | exact I].
-  - destruct up; [auto|]. right. apply fail_answer_non_success; [exact HO | apply good_no_upstream_error].
+  - destruct b.
+    + left. destruct up as [s|]; [reflexivity|].
+      pose proof (fail_answer_http_shape Proxy c (ScError upstream_error)) as F.
+      pose proof (hits_with_hits 1 (fail_answer Proxy c (ScError upstream_error))) as H.
+      destruct (fail_answer Proxy c (ScError upstream_error)); try exact H; exfalso; apply F; discriminate.
+    + right. apply fail_answer_non_success; [exact HO | apply good_no_upstream_error].
 Qed.
 
 (** ** C01_positive_only_if *)
 Theorem positive_only_if en c l q :
-  (forall r, applied l r -> sane c r) -> success_like (accepted_code c) = true ->
+  (forall r, applied l r -> sane c r) -> (en = Decision -> success_like (accepted_code c) = true) ->
   overrides_not_success (c_respond c) ->
   positive en c (serve en c l q) ->
-  exists r, applied l r /\ pipeline_succeeded r.
+  exists r, applied l r /\ pipeline_completed r.
 Proof.
   intros HS HA HO P.
-  assert (RULE : forall r, applied l r -> serve en c l q = serve_rule en c r q -> pipeline_succeeded r).
+  assert (RULE : forall r, applied l r -> serve en c l q = serve_rule en c r q -> pipeline_completed r).
   { intros r Ap E. rewrite E in P. pose proof (HS r Ap) as S.
     destruct (run_rule en r q) eqn:RR;
       try (exfalso; eapply (non_success_not_positive en c); [exact HA| |exact P];
            apply serve_rule_failed; [exact S | congruence]).
-    destruct S as (_ & _ & N & _). eapply run_rule_ROk_succeeded; eauto. }
+    destruct S as (_ & _ & N & _). apply succeeded_completed. eapply run_rule_ROk_succeeded; eauto. }
   destruct l as [r|r|]; simpl in *.
   - exists r. split; [left; reflexivity | apply RULE; [left|]; reflexivity].
   - exists r. split; [right; reflexivity | apply RULE; [right|]; reflexivity].
@@ -478,13 +593,14 @@ Qed.
 (** ** C01_failed_never_reaches_upstream *)
 Theorem failed_never_reaches_upstream en c l q :
   (forall r, applied l r -> sane c r) -> overrides_not_success (c_respond c) ->
-  (forall r, applied l r -> ~ pipeline_succeeded r) ->
+  (forall r, applied l r -> ~ pipeline_completed r) ->
   non_success (serve en c l q).
 Proof.
   intros HS HO NS.
   assert (RULE : forall r, applied l r -> non_success (serve_rule en c r q)).
   { intros r Ap. pose proof (HS r Ap) as S. apply serve_rule_failed; [exact S|].
-    intro RR. apply (NS r Ap). destruct S as (_ & _ & N & _). eapply run_rule_ROk_succeeded; eauto. }
+    intro RR. apply (NS r Ap). destruct S as (_ & _ & N & _).
+    apply succeeded_completed. eapply run_rule_ROk_succeeded; eauto. }
   destruct l as [r|r|]; simpl.
   - apply RULE. left. reflexivity.
   - apply RULE. right. reflexivity.
@@ -495,28 +611,18 @@ Qed.
 Theorem answer_dichotomy en c l q :
   (forall r, applied l r -> sane c r) -> overrides_not_success (c_respond c) ->
   non_success (serve en c l q) \/
-  (exists r, applied l r /\ pipeline_succeeded r /\
-     serve en c l q = match en with
-                      | Decision => AHttp (accepted_code c) 0
-                      | Proxy => AHttp upstream_status 1
-                      | Envoy => AEnvoyOk
-                      end).
+  (exists r, applied l r /\ pipeline_completed r /\ positive_shape en c (serve en c l q)).
 Proof.
   intros HS HO.
   assert (RULE : forall r, applied l r -> serve en c l q = serve_rule en c r q ->
-            non_success (serve en c l q) \/
-            (pipeline_succeeded r /\
-             serve en c l q = match en with
-                              | Decision => AHttp (accepted_code c) 0
-                              | Proxy => AHttp upstream_status 1
-                              | Envoy => AEnvoyOk
-                              end)).
+            non_success (serve en c l q) \/ (pipeline_completed r /\ positive_shape en c (serve en c l q))).
   { intros r Ap E. pose proof (HS r Ap) as S. rewrite E.
     destruct (run_rule en r q) eqn:RR;
       try (left; apply serve_rule_failed; [exact S | congruence]).
     unfold serve_rule. rewrite RR.
-    destruct (positive_answer_cases en c (backend r) HO) as [P|P]; [right | left; exact P].
-    split; [|exact P]. destruct S as (_ & _ & N & _). eapply run_rule_ROk_succeeded; eauto. }
+    destruct (positive_answer_cases en c (backend r) (q_upstream q) HO) as [P|P]; [right | left; exact P].
+    split; [|exact P]. destruct S as (_ & _ & N & _).
+    apply succeeded_completed. eapply run_rule_ROk_succeeded; eauto. }
   destruct l as [r|r|]; simpl.
   - destruct (RULE r (or_introl eq_refl) eq_refl) as [H|[H1 H2]]; [left; exact H|].
     right. exists r. split; [left; reflexivity | split; assumption].
@@ -525,59 +631,265 @@ Proof.
   - left. apply fail_answer_non_success; [exact HO | apply good_no_rule_error].
 Qed.
 
-(** ** C01_error_handler_cannot_rescue: whatever error pipeline the rule has *)
+(** ** C01_error_handler_cannot_rescue.  The handlers are arbitrary ([EhAny f] with any
+    [f]), each behind any condition; all that is assumed of them is [records] (and
+    that they do not invent success redirects).  The core fact is about the error
+    pipeline alone: it never reports "handled" with nothing recorded. *)
+Theorem error_pipeline_never_forgets ehs cause ret p :
+  Forall handler_records ehs -> run_eh ehs cause = EhRet ret p -> ret = None -> p <> None.
+Proof. apply run_eh_records. Qed.
+
 Definition with_eh (r : rule) (l : list ehstep) : rule :=
   {| sc := sc r; sh := sh r; fi := fi r; eh := l; backend := backend r; slashes_off := slashes_off r |}.
 
 Theorem error_handler_cannot_rescue en c r q ehs :
-  sane c (with_eh r ehs) -> ~ pipeline_succeeded r ->
+  overrides_not_success (c_respond c) -> redirects_ok r -> sc r <> [] ->
+  Forall good_eh ehs -> Forall handler_records ehs ->
+  ~ pipeline_completed r ->
   non_success (serve en c (Matched (with_eh r ehs)) q) /\ non_success (serve en c (Default (with_eh r ehs)) q).
 Proof.
-  intros S NS.
-  assert (N : run_rule en (with_eh r ehs) q <> ROk).
-  { intro RR. apply NS. destruct S as (_ & _ & N & _).
-    pose proof (run_rule_ROk_succeeded en (with_eh r ehs) q N RR) as P. exact P. }
+  intros HO (G1 & G2 & G3 & _) N GE HR NS.
+  assert (S : sane c (with_eh r ehs)).
+  { split; [exact HO|]. split; [split; [exact G1|split; [exact G2|split; [exact G3|exact GE]]]|].
+    split; [exact N | exact HR]. }
+  assert (NR : run_rule en (with_eh r ehs) q <> ROk).
+  { intro RR. apply NS. apply succeeded_completed.
+    exact (run_rule_ROk_succeeded en (with_eh r ehs) q N RR). }
   split; simpl; apply serve_rule_failed; assumption.
 Qed.
 
-(** the veto rests on every handler recording a pipeline error: a handler that
-    returned nil without doing so would turn the failure into a positive answer *)
+(** heimdall's three error handler mechanisms (as modelled in C12 and tied to the
+    code by both correspondence streams) record before they report success *)
+Theorem real_mechanisms_record m : records (h_sem (EhReal m)).
+Proof. apply (handler_records_sem {| e_if := None; e_kind := EhReal m |}). exact I. Qed.
+
+(** the veto rests on that: a handler that returned nil without recording would
+    turn the failure into a positive answer *)
 Definition silent_rule : rule :=
   {| sc := [{| a_out := Fail (Sentinel KAuthentication); a_fallback := false |}]; sh := []; fi := [];
      eh := [{| e_if := None; e_kind := EhSilent |}]; backend := true; slashes_off := false |}.
 Definition plain_config : config :=
   {| c_respond := {| c_verbose := false; ov_authn := 0; ov_authz := 0; ov_comm := 0; ov_precond := 0;
                      ov_norule := 0; ov_internal := 0 |}; c_accepted := 0 |}.
-Definition plain_request : request := {| q_encoded_slash := false |}.
+Definition plain_request : request := {| q_encoded_slash := false; q_upstream := UpOk 200 |}.
 
 Theorem silent_handler_would_rescue :
-  ~ pipeline_succeeded silent_rule /\ ~ real_handlers silent_rule /\
+  ~ pipeline_completed silent_rule /\ ~ handlers_record silent_rule /\
   serve Decision plain_config (Matched silent_rule) plain_request = AHttp 200 0 /\
   serve Envoy plain_config (Matched silent_rule) plain_request = AEnvoyOk.
 Proof.
   split; [|split; [|split; reflexivity]].
-  - intro P. apply succeeded_b_spec in P. discriminate.
-  - intro R. inversion R as [|? ? H _]. apply H. reflexivity.
+  - intro P. apply completed_b_spec in P. discriminate.
+  - intro R. inversion R as [|? ? H _]. exact H.
 Qed.
 
-(** ** C01_panic_is_non_success *)
-Theorem panic_is_non_success en c r q v :
-  sane c r -> run_rule en r q = RPanic v ->
-  serve_rule en c r q = fail_answer en c (ScPanic v) /\
-  non_success (serve_rule en c r q) /\
-  (en = Envoy -> serve_rule en c r q = AEnvoyStatus GInternal) /\
-  (en <> Envoy -> v = None -> valid_code (http_code (ov_internal (c_respond c)) 500) = true ->
-     serve_rule en c r q = AHttp (http_code (ov_internal (c_respond c)) 500) 0).
+(** ** C01_reached_panic_is_non_success: "a panic is reached", stated on the rule
+    alone (no function of the model).
+
+    [step_goes_on]: the step neither panics nor stops its stage: skipped, ran
+    without error, or failed while marked continue-on-error. *)
+Definition cond_error (c : option cond) (e : err) : Prop := c = Some (CErr e) /\ occurs TEval e = false.
+Definition step_fails_with (s : step) (e : err) : Prop :=
+  (cond_true (s_if s) /\ s_out s = Fail e) \/ cond_error (s_if s) e.
+Definition step_goes_on (s : step) : Prop :=
+  cond_false (s_if s) \/ (cond_true (s_if s) /\ s_out s = Ok) \/ (s_continue s = true /\ exists e, step_fails_with s e).
+Definition step_panics (s : step) (v : option err) : Prop :=
+  s_if s = Some (CPanics v) \/ (cond_true (s_if s) /\ s_out s = Panics v).
+Definition step_stops_with (s : step) (e : err) : Prop := s_continue s = false /\ step_fails_with s e.
+
+(** the first step that does not "go on" panics / stops the stage with an error *)
+Definition stage_panics (l : list step) (v : option err) : Prop :=
+  exists l1 s l2, l = l1 ++ s :: l2 /\ Forall step_goes_on l1 /\ step_panics s v.
+Definition stage_fails (l : list step) (e : err) : Prop :=
+  exists l1 s l2, l = l1 ++ s :: l2 /\ Forall step_goes_on l1 /\ step_stops_with s e.
+
+(** authenticators: everyone in front failed and was allowed to fall back *)
+Definition fell_back (a : authn) : Prop := exists e, a_out a = Fail e /\ may_fall_back a e.
+Definition sc_panics (l : list authn) (v : option err) : Prop :=
+  exists l1 a l2, l = l1 ++ a :: l2 /\ Forall fell_back l1 /\ a_out a = Panics v.
+Definition sc_fails (l : list authn) (e : err) : Prop :=
+  exists l1 a l2, l = l1 ++ a :: l2 /\ Forall fell_back l1 /\ a_out a = Fail e /\ (l2 = [] \/ ~ may_fall_back a e).
+
+(** the execute stages end in a panic / in the error [e] *)
+Definition execute_panics (r : rule) (v : option err) : Prop :=
+  sc_panics (sc r) v \/
+  (authenticated (sc r) /\ stage_panics (sh r) v) \/
+  (authenticated (sc r) /\ Forall step_goes_on (sh r) /\ stage_panics (fi r) v).
+Definition execute_fails (r : rule) (e : err) : Prop :=
+  sc_fails (sc r) e \/
+  (authenticated (sc r) /\ stage_fails (sh r) e) \/
+  (authenticated (sc r) /\ Forall step_goes_on (sh r) /\ stage_fails (fi r) e).
+
+(** the error pipeline: every handler in front was not applicable (its condition
+    evaluated to false); the first applicable one panics, or its condition does *)
+Definition eh_panics (l : list ehstep) (cause : err) (v : option err) : Prop :=
+  exists l1 h l2, l = l1 ++ h :: l2 /\ Forall (fun x => cond_false (e_if x)) l1 /\
+    (e_if h = Some (CPanics v) \/ (cond_true (e_if h) /\ h_sem (e_kind h) cause = EhPanic v)).
+
+Definition reaches_panic (r : rule) (v : option err) : Prop :=
+  execute_panics r v \/ exists e, execute_fails r e /\ eh_panics (eh r) e v.
+
+Lemma step_goes_on_exec s : step_goes_on s ->
+  step_exec s = Ok \/ (s_continue s = true /\ exists e, step_exec s = Fail e).
 Proof.
-  intros S RR. split; [unfold serve_rule; rewrite RR; reflexivity|].
-  split; [apply serve_rule_failed; [exact S | congruence]|].
-  unfold serve_rule. rewrite RR. split.
-  - intros ->. reflexivity.
-  - intros NE -> V. destruct (proj1 (panic_response (c_respond c) o0) V) as (h & b & E).
-    destruct en; [| |contradiction]; simpl; rewrite E; reflexivity.
+  unfold step_goes_on, step_exec, can_execute.
+  intros [F|[[T O]|[C (e & [[T O]|[E1 E2]])]]].
+  - left. destruct F as [F|(e & F & F')]; rewrite F; [reflexivity|]. rewrite is_occurs, F'. reflexivity.
+  - left. destruct T as [T|T]; rewrite T; exact O.
+  - right. split; [exact C|]. exists e. destruct T as [T|T]; rewrite T; exact O.
+  - right. split; [exact C|]. exists e. rewrite E1, is_occurs, E2. reflexivity.
 Qed.
 
-(** ** C01_success_is_positive (converse: non-vacuity and liveness) *)
+Lemma run_steps_app_goes_on l1 l2 : Forall step_goes_on l1 -> run_steps (l1 ++ l2) = run_steps l2.
+Proof.
+  induction 1 as [|s rest G _ IH]; simpl; [reflexivity|].
+  destruct (step_goes_on_exec s G) as [E|[C (e & E)]]; rewrite E; [exact IH|]. rewrite C. exact IH.
+Qed.
+
+Lemma goes_on_run_steps l : Forall step_goes_on l -> run_steps l = StOk.
+Proof. intro G. rewrite <- (app_nil_r l). rewrite run_steps_app_goes_on; [reflexivity | exact G]. Qed.
+
+Lemma step_panics_exec s v : step_panics s v -> step_exec s = Panics v.
+Proof.
+  unfold step_panics, step_exec, can_execute. intros [E|[[T|T] O]]; [rewrite E | rewrite T | rewrite T]; auto.
+Qed.
+
+Lemma step_fails_exec s e : step_fails_with s e -> step_exec s = Fail e.
+Proof.
+  unfold step_fails_with, step_exec, can_execute, cond_error.
+  intros [[[T|T] O]|[E1 E2]]; [rewrite T | rewrite T | rewrite E1, is_occurs, E2]; auto.
+Qed.
+
+Lemma stage_panics_run l v : stage_panics l v -> run_steps l = StPanic v.
+Proof.
+  intros (l1 & s & l2 & -> & G & P). rewrite run_steps_app_goes_on by exact G.
+  simpl. rewrite (step_panics_exec s v P). reflexivity.
+Qed.
+
+Lemma stage_fails_run l e : stage_fails l e -> run_steps l = StFail e.
+Proof.
+  intros (l1 & s & l2 & -> & G & C & F). rewrite run_steps_app_goes_on by exact G.
+  simpl. rewrite (step_fails_exec s e F), C. reflexivity.
+Qed.
+
+Lemma run_sc_app_fell_back l1 l2 : Forall fell_back l1 -> l1 <> [] ->
+  exists e, forall last, run_sc (l1 ++ l2) last = run_sc l2 (Some e).
+Proof.
+  induction 1 as [|a rest (e & E & F) _ IH]; intro N; [contradiction|].
+  assert (STEP : forall last, run_sc ((a :: rest) ++ l2) last = run_sc (rest ++ l2) (Some e)).
+  { intro last. simpl. rewrite E, is_arg_occurs. destruct F as [F|F]; rewrite F; simpl; rewrite ?orb_true_r; reflexivity. }
+  destruct rest as [|b rest'].
+  - exists e. exact STEP.
+  - destruct IH as (e' & IH); [discriminate|]. exists e'. intro last. rewrite STEP. apply IH.
+Qed.
+
+Lemma sc_panics_run l v : sc_panics l v -> run_sc l None = StPanic v.
+Proof.
+  intros (l1 & a & l2 & -> & G & P).
+  destruct l1 as [|b l1'].
+  - simpl. rewrite P. reflexivity.
+  - destruct (run_sc_app_fell_back (b :: l1') (a :: l2) G) as (e & H); [discriminate|].
+    rewrite H. simpl. rewrite P. reflexivity.
+Qed.
+
+Lemma sc_fails_run l e : sc_fails l e -> run_sc l None = StFail e.
+Proof.
+  intros (l1 & a & l2 & -> & G & F & L).
+  assert (LAST : forall last, run_sc (a :: l2) last = StFail e).
+  { intro last. simpl. rewrite F, is_arg_occurs.
+    destruct L as [-> | NF].
+    - destruct (occurs (TKind KArgument) e || a_fallback a); reflexivity.
+    - destruct (occurs (TKind KArgument) e || a_fallback a) eqn:B; [|reflexivity].
+      exfalso. apply NF. apply orb_true_iff in B. exact B. }
+  destruct l1 as [|b l1']; [apply LAST|].
+  destruct (run_sc_app_fell_back (b :: l1') (a :: l2) G) as (e' & H); [discriminate|].
+  rewrite H. apply LAST.
+Qed.
+
+Lemma run_eh_app_not_applicable l1 l2 cause :
+  Forall (fun x => cond_false (e_if x)) l1 -> run_eh (l1 ++ l2) cause = run_eh l2 cause.
+Proof.
+  induction 1 as [|h rest F _ IH]; simpl; [reflexivity|].
+  assert (E : eh_exec h cause = EhRet (Some not_applicable) None).
+  { unfold eh_exec, can_execute. destruct F as [F|(e & F & F')]; rewrite F; [reflexivity|].
+    rewrite is_occurs, F'. reflexivity. }
+  rewrite E. simpl. exact IH.
+Qed.
+
+Lemma eh_panics_run l cause v : eh_panics l cause v -> run_eh l cause = EhPanic v.
+Proof.
+  intros (l1 & h & l2 & -> & G & P). rewrite run_eh_app_not_applicable by exact G. simpl.
+  assert (E : eh_exec h cause = EhPanic v).
+  { unfold eh_exec, can_execute. destruct P as [P|[[T|T] P]]; [rewrite P | rewrite T | rewrite T]; auto. }
+  rewrite E. reflexivity.
+Qed.
+
+Lemma reaches_panic_run en r q v :
+  slash_rejected en r q = false -> reaches_panic r v -> run_rule en r q = RPanic v.
+Proof.
+  intros SL [X|(e & X & H)]; unfold run_rule; rewrite SL.
+  - destruct X as [X|[(A & X)|(A & G & X)]].
+    + rewrite (sc_panics_run _ _ X). reflexivity.
+    + rewrite (authenticated_run_sc _ A), (stage_panics_run _ _ X). reflexivity.
+    + rewrite (authenticated_run_sc _ A), (goes_on_run_steps _ G), (stage_panics_run _ _ X). reflexivity.
+  - pose proof (eh_panics_run _ _ _ H) as E.
+    destruct X as [X|[(A & X)|(A & G & X)]].
+    + rewrite (sc_fails_run _ _ X). simpl. rewrite E. reflexivity.
+    + rewrite (authenticated_run_sc _ A), (stage_fails_run _ _ X). simpl. rewrite E. reflexivity.
+    + rewrite (authenticated_run_sc _ A), (goes_on_run_steps _ G), (stage_fails_run _ _ X). simpl. rewrite E. reflexivity.
+Qed.
+
+Theorem reached_panic_is_non_success en c l r q v :
+  applied l r -> sane c r -> reaches_panic r v ->
+  non_success (serve en c l q) /\
+  (en = Envoy -> slash_rejected en r q = false -> serve en c l q = AEnvoyStatus GInternal) /\
+  (en <> Envoy -> slash_rejected en r q = false -> v = None ->
+     valid_code (http_code (ov_internal (c_respond c)) 500) = true ->
+     serve en c l q = AHttp (http_code (ov_internal (c_respond c)) 500) 0).
+Proof.
+  intros Ap S P.
+  assert (E : serve en c l q = serve_rule en c r q) by (destruct Ap as [-> | ->]; reflexivity).
+  rewrite E. split; [|split].
+  - apply serve_rule_failed; [exact S|]. destruct (slash_rejected en r q) eqn:SL.
+    + unfold run_rule. rewrite SL. discriminate.
+    + rewrite (reaches_panic_run en r q v SL P). discriminate.
+  - intros -> SL. unfold serve_rule. rewrite (reaches_panic_run _ r q v SL P). reflexivity.
+  - intros NE SL -> V. unfold serve_rule. rewrite (reaches_panic_run en r q None SL P).
+    destruct (proj1 (panic_response (c_respond c) o0) V) as (h & b & EH).
+    destruct en; [| |contradiction]; simpl; rewrite EH; reflexivity.
+Qed.
+
+(** a panicking continue-on-error step is a reached panic even though the letter of
+    [pipeline_completed] exempts that step: the answer is a non-success all the same *)
+Definition panicking_continue_rule : rule :=
+  {| sc := [{| a_out := Ok; a_fallback := false |}];
+     sh := [{| s_if := None; s_out := Panics None; s_continue := true |}]; fi := []; eh := [];
+     backend := true; slashes_off := false |}.
+
+Example continue_step_panic_is_reached :
+  pipeline_completed panicking_continue_rule /\ reaches_panic panicking_continue_rule None /\
+  serve Proxy plain_config (Matched panicking_continue_rule) plain_request = AHttp 500 0.
+Proof.
+  split; [apply completed_b_spec; reflexivity|]. split; [|reflexivity].
+  left. right. left. split; [apply auth_here; reflexivity|].
+  exists [], {| s_if := None; s_out := Panics None; s_continue := true |}, [].
+  split; [reflexivity|]. split; [constructor|]. right. split; [left|]; reflexivity.
+Qed.
+
+(** the reading of the statement for continue-on-error steps: the evaluation error
+    of such a step's condition is swallowed like the step's own error *)
+Definition swallowed_condition_rule : rule :=
+  {| sc := [{| a_out := Ok; a_fallback := false |}];
+     sh := [{| s_if := Some (CErr (Foreign 1)); s_out := Ok; s_continue := true |}]; fi := []; eh := [];
+     backend := true; slashes_off := false |}.
+
+Example continue_step_condition_error_is_swallowed :
+  pipeline_completed swallowed_condition_rule /\
+  serve Decision plain_config (Matched swallowed_condition_rule) plain_request = AHttp 200 0 /\
+  serve Proxy plain_config (Matched swallowed_condition_rule) plain_request = AHttp 200 1.
+Proof. split; [apply completed_b_spec; reflexivity | split; reflexivity]. Qed.
+
+(** ** C01_success_is_positive (converse: liveness; uses the C04 reading of fallback) *)
 Definition quiet (r : rule) : Prop := Forall step_quiet (sh r) /\ Forall step_quiet (fi r).
 
 Lemma succeeded_run_rule en r q :
@@ -590,20 +902,22 @@ Qed.
 Theorem success_is_positive en c l r q :
   applied l r -> pipeline_succeeded r -> quiet r -> slash_rejected en r q = false ->
   (en = Decision -> valid_code (accepted_code c) = true) -> (en = Proxy -> backend r = true) ->
-  serve en c l q = match en with
-                   | Decision => AHttp (accepted_code c) 0
-                   | Proxy => AHttp upstream_status 1
-                   | Envoy => AEnvoyOk
-                   end /\
-  positive en c (serve en c l q).
+  positive_shape en c (serve en c l q) /\ positive en c (serve en c l q) /\
+  (en = Proxy -> forall s, q_upstream q = UpOk s -> serve en c l q = AHttp s 1).
 Proof.
   intros Ap P Q SL HD HP.
-  assert (E : serve en c l q = positive_answer en c (backend r)).
+  assert (E : serve en c l q = positive_answer en c (backend r) (q_upstream q)).
   { destruct Ap as [-> | ->]; simpl; unfold serve_rule; rewrite (succeeded_run_rule en r q P Q SL); reflexivity. }
-  rewrite E. destruct en; simpl.
-  - rewrite (HD eq_refl). split; reflexivity.
-  - rewrite (HP eq_refl). split; [reflexivity | simpl; lia].
-  - split; [reflexivity | exact I].
+  assert (SH : positive_shape en c (serve en c l q)).
+  { rewrite E. destruct en; unfold positive_answer, positive_shape.
+    - rewrite (HD eq_refl). reflexivity.
+    - rewrite (HP eq_refl). destruct (q_upstream q) as [s|]; [reflexivity|].
+      pose proof (fail_answer_http_shape Proxy c (ScError upstream_error)) as F.
+      pose proof (hits_with_hits 1 (fail_answer Proxy c (ScError upstream_error))) as H.
+      destruct (fail_answer Proxy c (ScError upstream_error)); try exact H; exfalso; apply F; discriminate.
+    - reflexivity. }
+  split; [exact SH|]. split; [apply positive_shape_positive; exact SH|].
+  intros -> s U. rewrite E. unfold positive_answer. rewrite (HP eq_refl), U. reflexivity.
 Qed.
 
 (** ** the hypotheses are needed *)
@@ -613,27 +927,27 @@ Definition empty_rule : rule :=
   {| sc := []; sh := []; fi := []; eh := []; backend := true; slashes_off := false |}.
 
 Theorem no_authenticator_is_positive :
-  ~ pipeline_succeeded empty_rule /\
+  ~ pipeline_completed empty_rule /\
   serve Decision plain_config (Matched empty_rule) plain_request = AHttp 200 0 /\
   serve Proxy plain_config (Matched empty_rule) plain_request = AHttp 200 1 /\
   serve Envoy plain_config (Matched empty_rule) plain_request = AEnvoyOk.
 Proof.
-  split; [intro P; apply succeeded_b_spec in P; discriminate | repeat split; reflexivity].
+  split; [intro P; apply completed_b_spec in P; discriminate | repeat split; reflexivity].
 Qed.
 
-(** a redirect error handler configured with `code: 200` answers a failed
-    pipeline with the accepted status of the decision service *)
+(** a redirect error handler with code 200 (no longer creatable, see below) would
+    answer a failed pipeline with the accepted status of the decision service *)
 Definition redirect200_rule : rule :=
   {| sc := [{| a_out := Fail (Sentinel KAuthentication); a_fallback := false |}]; sh := []; fi := [];
      eh := [{| e_if := None; e_kind := EhReal (MRedirect 200 (Some "http://idp"%string)) |}];
      backend := true; slashes_off := false |}.
 
 Theorem success_redirect_is_positive :
-  ~ pipeline_succeeded redirect200_rule /\ ~ redirects_ok redirect200_rule /\
+  ~ pipeline_completed redirect200_rule /\ ~ redirects_ok redirect200_rule /\
   positive Decision plain_config (serve Decision plain_config (Matched redirect200_rule) plain_request).
 Proof.
   split; [|split].
-  - intro P. apply succeeded_b_spec in P. discriminate.
+  - intro P. apply completed_b_spec in P. discriminate.
   - intros (_ & _ & _ & G). inversion G as [|? ? [_ H] _]. simpl in H. discriminate.
   - vm_compute. reflexivity.
 Qed.
@@ -650,7 +964,11 @@ Definition loader_created (h : ehstep) : Prop :=
 
 Theorem loader_redirect_never_success h :
   loader_created h -> good_cond (e_if h) ->
-  match e_kind h with EhFails e => good_err e | EhPanics v => good_panic v | _ => True end ->
+  match e_kind h with
+  | EhFails e => good_err e | EhPanics v => good_panic v
+  | EhAny f => forall cause, good_err cause -> good_eh_res (f cause)
+  | _ => True
+  end ->
   good_eh h /\
   match e_kind h with
   | EhReal (MRedirect code _) => 300 <= redirect_status code <= 399 /\ success_like (redirect_status code) = false
@@ -658,7 +976,7 @@ Theorem loader_redirect_never_success h :
   end.
 Proof.
   unfold loader_created, good_eh. intros L G K.
-  destruct (e_kind h) as [[|code to|realm]|e|v|]; auto.
+  destruct (e_kind h) as [[|code to|realm]|e|v| |f]; auto.
   destruct (created_redirect_code (c_respond plain_config) o0 code to _ (Sentinel KInternal) L) as (_ & R & _ & S & _).
   auto.
 Qed.
@@ -669,7 +987,7 @@ Proof. intro F. inversion F as [|? ? H _]. unfold loader_created in H. simpl in 
 
 (** ** non-vacuity: a pipeline with a falling-back authenticator, a skipped
     step, a failing continue-on-error step and a conditional error pipeline
-    satisfies the hypotheses and succeeds; the same pipeline with a failing
+    satisfies the hypotheses and completes; the same pipeline with a failing
     finalizer does not *)
 Definition ex_rule (last : outcome) : rule :=
   {| sc := [{| a_out := Fail (Chain [Sentinel KAuthentication; WrapW (Sentinel KArgument)] false); a_fallback := false |};
@@ -688,7 +1006,7 @@ Example nonvacuous :
   sane plain_config (ex_rule Ok) /\ pipeline_succeeded (ex_rule Ok) /\ quiet (ex_rule Ok) /\
   serve Proxy plain_config (Matched (ex_rule Ok)) plain_request = AHttp 200 1 /\
   sane plain_config (ex_rule (Fail (Sentinel KInternal))) /\
-  ~ pipeline_succeeded (ex_rule (Fail (Sentinel KInternal))) /\
+  ~ pipeline_completed (ex_rule (Fail (Sentinel KInternal))) /\
   serve Proxy plain_config (Matched (ex_rule (Fail (Sentinel KInternal)))) plain_request = AHttp 302 0 /\
   serve Envoy plain_config (Default (ex_rule (Fail (Sentinel KInternal)))) plain_request
     = AEnvoyDenied GFailedPrecondition 302.
@@ -702,7 +1020,7 @@ Proof.
   { intros o Go. split; [repeat split|split; [|split]].
     - repeat split; simpl; repeat constructor; simpl; auto.
     - discriminate.
-    - repeat constructor; simpl; discriminate. }
+    - repeat constructor. }
   split; [apply SANE; exact I|].
   split; [apply succeeded_b_spec; reflexivity|].
   split.
@@ -710,6 +1028,6 @@ Proof.
       try (intros [H|H]; discriminate). }
   split; [reflexivity|].
   split; [apply SANE; simpl; apply GE; exact I|].
-  split; [intro P; apply succeeded_b_spec in P; discriminate|].
+  split; [intro P; apply completed_b_spec in P; discriminate|].
   split; reflexivity.
 Qed.
